@@ -28,10 +28,11 @@ const (
 	keySkipped   = "leader-regained:unsent-batch-skipped"
 	keyOverlap   = "order:replayed-batch-overlaps-persisted-batch-after-restart"
 	keyFollower  = "missing:follower-snapshot-without-flush-then-restart"
+	keyInstalled = "missing:entry-inside-snapshot-installed-on-later-leader"
 )
 
 func run(c *vf.Ctx) {
-	c.Rule("history = one client posts a seeded script of /db/execute?raft_index requests (1-5 statements, 40% with ?transaction; single- and multi-row INSERT/UPDATE/DELETE on a rowid-alias table with UNIQUE and CHECK constraints, a plain rowid table, a table outside the configured filter, auxiliary tables created/dropped by DDL; statements that fail after touching rows (UNIQUE / CHECK midway) or at prepare) at about 30 requests/s to the leader (75%) or a random node of a live in-process 3-node cluster in which every node runs a real cdc.Service (batch size 1-5, batch delay 10-60 ms, HWM interval 100-600 ms, retry forever) posting to a recording endpoint that answers per a seeded plan (76% 200, 12% 500, 6% connection closed, 6% held beyond the transmit timeout; outages of 15-85 requests during which everything fails), while a seeded schedule steps the leader down (also twice during an outage), restarts nodes (leader or follower; close without snapshot, new service instance on the same fifo.db), takes user snapshots with 0-10 trailing logs. Every applied request is replayed on a shadow SQLite (stock driver, raw preupdate/commit hooks) to obtain the row changes, and the commit groups, of its log entry; unknown outcomes are resolved by comparing the strong-read state with shadow states. In addition 1 (quick) / 4 (thorough) directed histories (batch size 100, batch delay 8 s, no automatic snapshots): endpoint down, a few seeded requests on the leader, a user snapshot on a follower that has applied them while they are still inside its batching window, immediate restart of that follower, leadership moved to it, endpoint back, more requests. non-trivial = at least two leaders seen, at least one restart and one snapshot (user or automatic) executed, endpoint retries observed, and at least 5 multi-statement non-transaction entries with more than one non-empty commit; distinct by case number")
+	c.Rule("history = one client posts a seeded script of /db/execute?raft_index requests (1-5 statements, 40% with ?transaction; single- and multi-row INSERT/UPDATE/DELETE on a rowid-alias table with UNIQUE and CHECK constraints, a plain rowid table, a table outside the configured filter, auxiliary tables created/dropped by DDL; statements that fail after touching rows (UNIQUE / CHECK midway) or at prepare) at about 30 requests/s to the leader (75%) or a random node of a live in-process 3-node cluster in which every node runs a real cdc.Service (batch size 1-5, batch delay 10-60 ms, HWM interval 100-600 ms, retry forever) posting to a recording endpoint that answers per a seeded plan (76% 200, 12% 500, 6% connection closed, 6% held beyond the transmit timeout; outages of 15-85 requests during which everything fails), while a seeded schedule steps the leader down (also twice during an outage), restarts nodes (leader or follower; close without snapshot, new service instance on the same fifo.db), takes user snapshots with 0-10 trailing logs. Every applied request is replayed on a shadow SQLite (stock driver, raw preupdate/commit hooks) to obtain the row changes, and the commit groups, of its log entry; unknown outcomes are resolved by comparing the strong-read state with shadow states. In addition 1 (quick) / 4 (thorough) directed histories (batch size 100, batch delay 8 s, no automatic snapshots): endpoint down, a few seeded requests on the leader, a user snapshot on a follower that has applied them while they are still inside its batching window, immediate restart of that follower, leadership moved to it, endpoint back, more requests; and 2 (quick) / 6 (thorough) directed histories of a second motif (batch size 1-5, batch delay 10-60 ms, no automatic snapshots): a running follower (for a third of the histories a restarted process that has replayed its log) is cut off, 6-13 seeded requests are committed by the majority while its leader takes two user snapshots with 1-2 trailing logs (its log is trimmed), the requests are delivered (for a quarter of the histories the endpoint is down instead, from the cut-off until the follower leads), the follower is reconnected and is brought up to date by a snapshot sent by the leader (observed: its raft last_snapshot_index moves although it took no snapshot), 2-5 more requests are applied by it as follower (endpoint down for two thirds of the histories), leadership is moved to it, endpoint back, 3-6 requests under its leadership. non-trivial (random histories) = at least two leaders seen, at least one restart and one snapshot (user or automatic) executed, endpoint retries observed, and at least 5 multi-statement non-transaction entries with more than one non-empty commit; non-trivial (directed) = the scripted situation was reached (first motif: a non-leader took the snapshot and its restarted instance later delivered as leader; second motif: the snapshot install on the running follower was observed, entries were applied after it and the follower led the last request); distinct by case number")
 	c.Assume("ground truth for the row changes of an entry are SQLite's own preupdate/commit hooks on a shadow database fed the same requests in log order; the shadow is validated per request (statement errors, rows affected) and at the end (schema and content equal to a strong read of the cluster), otherwise the history is inconclusive")
 	c.Assume("delivered = payloads the endpoint answered with 200; bodies answered 5xx / dropped / held are not deliveries")
 	c.Assume("never-delivered is decided after the endpoint has been healthy, the leader's FIFO has had nothing to send and no payload has arrived for 10 s (2.5 s when nothing required is missing); no quiet state within 150 s, or dropped_cdc_events > 0, is inconclusive")
@@ -431,8 +432,10 @@ func judge(c *vf.Ctx, i int, h *histOut) {
 						viol(keySkipped, "committed row change never delivered: "+why+": "+describe(e, gi, ev), e)
 					} else if why := lostOnSnapshottedFollower(h, e.Index); why != "" {
 						viol(keyFollower, "committed row change never delivered: "+why+": "+describe(e, gi, ev), map[string]any{"entry": e, "marks": h.Marks})
+					} else if why := coveredByInstalledSnapshot(h, e.Index); why != "" {
+						viol(keyInstalled, "committed row change never delivered: "+why+": "+describe(e, gi, ev), map[string]any{"entry": e, "marks": h.Marks})
 					} else {
-						viol("missing:first-commit-of-entry", "committed row change never delivered after the drain: "+describe(e, gi, ev), e)
+						viol("missing:first-commit-of-entry", "committed row change never delivered after the drain: "+describe(e, gi, ev)+afterInstall(h, e.Index), map[string]any{"entry": e, "marks": h.Marks})
 					}
 				}
 			}
@@ -659,7 +662,34 @@ func judge(c *vf.Ctx, i int, h *histOut) {
 	for _, k := range []string{"cdc.service.retries", "cdc.service.fifo_enqueue_ignored", "cdc.service.batcher_write_ignored", "cdc.service.hwm_ignored", "cdc.service.snapshot_sync", "cdc.service.num_events_tx_ok"} {
 		c.Count(strings.ReplaceAll(k, ".", "_"), h.Expvar[k])
 	}
-	if h.Spec.Directed != "" {
+	if h.Spec.Directed == motifLagInstall {
+		c.Count("directed_lag_histories", 1)
+		// the scripted situation was reached: the running follower installed a
+		// snapshot sent by the leader, entries were applied after that, and the
+		// node was leader for the last requests
+		var in *mark
+		for k := range h.Marks {
+			if h.Marks[k].Kind == "install" {
+				in = &h.Marks[k]
+			}
+		}
+		after := 0
+		for _, e := range h.Expected {
+			if in != nil && e.Index > in.Applied {
+				after++
+			}
+		}
+		ledLast := false
+		if in != nil && len(h.Reqs) > 0 {
+			last := h.Reqs[len(h.Reqs)-1]
+			ledLast = last.Node == in.Node && last.Class == "applied"
+		}
+		if in != nil && after > 0 && ledLast && len(h.Leaders) >= 2 {
+			c.Count("directed_lag_histories_situation_reached", 1)
+			c.Count("entries_applied_after_snapshot_install_on_later_leader", int64(after))
+			c.Nontrivial(fmt.Sprintf("directed-lag-case%d", i))
+		}
+	} else if h.Spec.Directed != "" {
 		c.Count("directed_histories", 1)
 		// the scripted situation was reached: a non-leader took the snapshot, and
 		// the restarted instance of that node later delivered as leader
